@@ -92,14 +92,21 @@ def _same(x, y, tol=1e-5):
     return float(np.max(np.abs(x - y))) <= tol
 
 
-def _compare_draw_lists(pa, pb):
+def _compare_draw_lists(pa, pb, idx_a=None, amp=1.0):
     """Sequence alignment of the probability vectors seen at the sampler; near point masses may be
-    present in one twin only."""
+    present in one twin only. `idx_a`: the outcomes taken in twin A, `amp`: the amplification inherited
+    from earlier post-selections - every outcome taken divides what a contraction rounded away in one
+    twin (1e-6) by its probability, for the later draws of the same call too."""
     i = j = 0
     while i < len(pa) or j < len(pb):
         a = pa[i] if i < len(pa) else None
         b = pb[j] if j < len(pb) else None
-        if i < len(pa) and j < len(pb) and _same(a, b):
+        tolp = 1e-5 + 2e-6 * amp
+        if tolp > 0.05:
+            return None  # nothing meaningful left to compare
+        if i < len(pa) and j < len(pb) and _same(a, b, tol=tolp):
+            if idx_a is not None and a is not None and i < len(idx_a) and 0 <= idx_a[i] < len(a):
+                amp = amp / max(float(a[idx_a[i]]), 1e-12)
             i += 1
             j += 1
         elif i < len(pa) and _near_point_mass(a):
@@ -186,14 +193,15 @@ def compare_traces(ra, rb, props, oracle, world_a, client=None, compare_draws=Tr
         if res_a.status == "ok":
             da, db = runner.ret_digest(ra.world, res_a.ret), runner.ret_digest(rb.world, res_b.ret)
             if r["do"] in ("measure", "povm") and da != db:
-                if compare_draws and _compare_draw_lists(_all_draws(res_a), _all_draws(res_b)) is None:
+                if compare_draws and _compare_draw_lists(_all_draws(res_a), _all_draws(res_b), [d["idx"] for d in res_a.draws if d["p"] is not None], tol / tol0) is None:
                     # the sampler saw the same distributions in both twins and only the forced choices
                     # differ (the follower could not tell two equal distributions apart, or drew them in
                     # another order): two legitimate branches of one program, nothing left to compare
                     return None, None
                 return Violation(props, oracle, "twin-outcomes", cell, f"sid {sid}: {da} vs {db}"), sid
         if compare_draws:
-            bad = _compare_draw_lists(_all_draws(res_a), _all_draws(res_b))
+            ia_ = [d["idx"] for d in res_a.draws if d["p"] is not None]
+            bad = _compare_draw_lists(_all_draws(res_a), _all_draws(res_b), ia_, tol / tol0)
             if bad is not None:
                 return Violation(props, oracle, "twin-probabilities", cell, f"sid {sid}: {bad}"), sid
         if r["do"] in ("measure", "povm") and res_a.status == "ok":
